@@ -1222,6 +1222,10 @@ class Program:
             return self._val(an, st, args[0])
         if name in ("convert::Into::into", "convert::From::from") and generics and len(generics) >= 2 and generics[0] == generics[1]:
             return args[0]
+        if name in ("convert::Into::into", "convert::From::from") and len(generics) >= 2 and generics[0] in INT_BITS and generics[1] in INT_BITS:
+            # lossless integer conversion (From is only implemented for widening conversions)
+            to, frm = (generics[0], generics[1]) if name.endswith("from") else (generics[1], generics[0])
+            return T.cast("IntToInt", args[0], frm, to)
         if name == "ops::Deref::deref" and nq.startswith("<&"):
             return self._val(an, st, args[0])
         return None
